@@ -15,13 +15,13 @@ pub fn prop() -> Prop {
     Prop {
         id: "C09",
         level: "fault_enumeration",
-        rule: "fault cases over the C08 parameter space: (a) evaluations of a polynomial of degree in (bound, N) with non-zero leading coefficient, or of a random function, proved honestly under the unchanged declared bound (this is also the 'declared bound below the true degree' case); (b) one revealed layer value replaced by another field element; (c) one remainder coefficient replaced; (d) adaptive remainder substitution R' = R + c*prod(x - x_i) over the distinct final-layer query points; (e) adaptive coset substitution adding c*(x - alpha)*prod(x - x_q) to one queried coset (keeps the queried entries and the folded value); (f) one layer commitment replaced. Oracle: FriVerifier::new(..).and_then(verify) is Err; the unmodified proof must verify first. Non-trivial = the honest counterpart verifies (faults b-f) and the adaptive invariants were checked by the harness; distinct = hash of (instance, parameters, fault, positions).",
+        rule: "fault cases over the C08 parameter space: (a) evaluations of a polynomial of degree in (bound, N) with non-zero leading coefficient, or of a random function, proved honestly under the unchanged declared bound (this is also the 'declared bound below the true degree' case); (b) one revealed layer value replaced by another field element; (c) one remainder coefficient replaced; (d) adaptive remainder substitution R' = R + c*prod(x - x_i) over the distinct final-layer query points; (e) adaptive coset substitution adding c*(x - alpha)*prod(x - x_q) to one queried coset (keeps the queried entries and the folded value); (f) one layer commitment replaced; (g) sub-check understated_bounds: an honest proof for a polynomial of true degree D <= 2^k - 1 verified under every kind of declared bound d < D with the same domain (2^(k-1) < d, d + 1 not a power of two, half of them with d + 1 divisible by folding^layers so that no DegreeTruncation rejection hides the remainder-degree check), including D = d + 1. Oracle: FriVerifier::new(..).and_then(verify) is Err; the unmodified proof must verify first. Non-trivial = the honest counterpart verifies (faults b-f) and the adaptive invariants were checked by the harness; distinct = hash of (instance, parameters, fault, positions).",
         assumptions: vec![
             "(a) is probabilistic: the honest prover truncates the over-degree remainder, a false accept needs the truncated part to vanish at a queried point, probability <= N/|E| <= 2^-42 per case",
             "adaptive substitutions are computed from the replayed public coin (same reseed/draw schedule as FriVerifier::new) and are only mounted when feasible (enough remainder coefficients / enough unqueried entries in a coset); feasibility is counted",
         ],
-        subs: vec![Sub::gen("faults", faults, 240, 60_000, 1_500_000)],
-        required: vec!["fault:over_degree", "fault:random_function", "fault:layer_value", "fault:remainder_coefficient", "fault:adaptive_remainder", "fault:adaptive_coset", "fault:commitment", "slightly_over_bound", "ext_2", "ext_3", "folding_4", "folding_16"],
+        subs: vec![Sub::gen("faults", faults, 240, 60_000, 1_500_000), Sub::gen("understated_bounds", understated, 120, 20_000, 500_000)],
+        required: vec!["fault:over_degree", "fault:random_function", "fault:layer_value", "fault:remainder_coefficient", "fault:adaptive_remainder", "fault:adaptive_coset", "fault:commitment", "slightly_over_bound", "understated:divisible_by_folding_power", "understated:bound_plus_one_not_power_of_two", "understated:true_degree_just_above", "ext_2", "ext_3", "folding_4", "folding_16"],
         required_thorough: vec![],
     }
 }
@@ -300,4 +300,95 @@ fn run<X: HS, E: FieldElement<BaseField = <X::S as Spec>::B>>(s: &mut Src, rec: 
         Err(e) => return Err(Fail::new("harness-fri-reencode", format!("mutated FRI proof does not decode: {e}"))),
     };
     reject(verify::<X, E>(&p, proof, &commitments, &q, &positions), &what, rec)
+}
+
+
+// (g) UNDERSTATED DECLARED BOUNDS (any d, not only 2^j - 1)
+// ================================================================================================
+
+fn understated(s: &mut Src, rec: &mut Rec) -> CaseResult {
+    let idx = s.below(NUM_HASHERS);
+    with_hasher!(idx, X, {
+        let cube = <<X as HS>::S as Spec>::CUBE.is_some();
+        match s.below(3) {
+            0 => run_understated::<X, <<X as HS>::S as Spec>::B>(s, rec),
+            1 => run_understated::<X, Q<<<X as HS>::S as Spec>::B>>(s, rec),
+            _ if cube => run_understated::<X, C<<<X as HS>::S as Spec>::B>>(s, rec),
+            _ => run_understated::<X, Q<<<X as HS>::S as Spec>::B>>(s, rec),
+        }
+    })
+}
+
+fn run_understated<X: HS, E: FieldElement<BaseField = <X::S as Spec>::B>>(s: &mut Src, rec: &mut Rec) -> CaseResult {
+    let name = X::NAME;
+    rec.class(&format!("ext_{}", E::EXTENSION_DEGREE));
+    let max_log = if X::is_rescue() { 10 } else { 12 };
+    let mut p = gen_params(s, max_log, rec);
+    if p.log_bound < 4 || p.remainder_len() * E::ELEMENT_BYTES > u16::MAX as usize {
+        p = Params { log_bound: 7, blowup: 8, folding: s.pick_copy(&[2usize, 4]), rem_max_degree: 7 };
+    }
+    rec.class(&format!("folding_{}", p.folding));
+    let full = p.bound() + 1; // 2^k
+    let layers = p.num_layers();
+    let unit = p.folding.pow(layers as u32); // d + 1 must be a multiple of this to avoid DegreeTruncation
+    // declared bound d with 2^(k-1) < d < 2^k - 1 (same domain: next_power_of_two(d) = 2^k)
+    let lo = full / 2 + 1;
+    let hi = full - 2;
+    let d = if s.bool() && full / unit >= 2 {
+        // d + 1 = t * unit with rem_len/2 < t < rem_len
+        let r = full / unit;
+        let t = if r / 2 + 1 <= r - 1 { s.range((r / 2 + 1) as u64, (r - 1) as u64) as usize } else { r - 1 };
+        let d = t * unit - 1;
+        if d >= lo && d <= hi {
+            rec.class("understated:divisible_by_folding_power");
+        }
+        d.clamp(lo, hi)
+    } else {
+        s.range(lo as u64, hi as u64) as usize
+    };
+    rec.class_if(!(d + 1).is_power_of_two(), "understated:bound_plus_one_not_power_of_two");
+    // true degree D in (d, 2^k - 1]
+    let dd = match s.below(3) {
+        0 => {
+            rec.class("understated:true_degree_just_above");
+            d + 1
+        },
+        1 => full - 1,
+        _ => s.range(d as u64 + 1, full as u64 - 1) as usize,
+    };
+    let positions = gen_positions(s, p.domain(), rec);
+    let ctx = format!("{name}, E degree {}, domain {} (bound+1 = {full}), blowup {}, folding {}, remainder max degree {}, {layers} layers, true degree {dd}, declared bound {d}", E::EXTENSION_DEGREE, p.domain(), p.blowup, p.folding, p.rem_max_degree);
+    rec.set_fp(&(name, E::EXTENSION_DEGREE, p.log_bound, p.blowup, p.folding, p.rem_max_degree, d, dd, &positions));
+    rec.describe(|| json!({"instance": name, "extension_degree": E::EXTENSION_DEGREE, "domain": p.domain(), "blowup": p.blowup, "folding": p.folding, "remainder_max_degree": p.rem_max_degree, "layers": layers, "true_degree": dd, "declared_bound": d, "positions": positions}));
+    let mut mix = Mix(s.u64());
+    let mut c = vec![E::ZERO; full];
+    for x in c.iter_mut().take(dd + 1) {
+        *x = mix.elem::<X::S, E>().0;
+    }
+    c[dd] = nonzero::<X::S, E>(s);
+    let evals = evaluate::<X::S, E>(&c, p.blowup);
+    let h = match prove::<X, E>(&p, &evals, &positions) {
+        Ok(h) => h,
+        Err(pn) => return Err(Fail::new(format!("harness-prover-{}", pn.key()), format!("FRI prover panicked on a polynomial within the domain's bound ({ctx}): {}", pn.message))),
+    };
+    let q: Vec<E> = positions.iter().map(|i| evals[*i]).collect();
+    // sanity: under the true bound 2^k - 1 the proof verifies
+    match verify::<X, E>(&p, h.proof.clone(), &h.commitments, &q, &positions) {
+        Verdict::Accept => {},
+        other => return Err(Fail::new("harness-honest-baseline", format!("baseline proof does not verify under the full bound: {other:?} ({ctx})"))),
+    }
+    rec.nontrivial();
+    match verify_with_bound::<X, E>(&p, d, h.proof, &h.commitments, &q, &positions) {
+        Verdict::Accept => Err(Fail::new("fri-accepts:understated_bound", format!("FRI verifier ACCEPTED a polynomial of degree {dd} under the declared bound {d} ({ctx})"))),
+        Verdict::Panic(pn) => Err(Fail::new(format!("verifier-{}", pn.key()), format!("FRI verifier panicked under an understated bound: {} at {} ({ctx})", pn.message, pn.location))),
+        Verdict::Reject(e) => {
+            let dbg = format!("{e:?}");
+            rec.class(&format!("rejected_with:{}", dbg.split('(').next().unwrap()));
+            Ok(())
+        },
+        Verdict::ChannelError(_) => {
+            rec.class("rejected_with:channel_error");
+            Ok(())
+        },
+    }
 }
